@@ -312,6 +312,7 @@ type LState struct {
 	wrapped      bool
 	uvcache      *Upvalue
 	hasErrorFunc bool
+	yieldTop     int // registry top + 1 that a resumed yield with a fixed number of results must see (0: all values)
 	mainLoop     func(*LState, *callFrame)
 	ctx          context.Context
 	ctxCancelFn  context.CancelFunc
